@@ -250,6 +250,7 @@ func buildBreakerWith(calls []BCallD, handles bool, onChange func(circuitbreaker
 }
 
 func TestDrive_C04(t *testing.T) {
+	driveSlowStateListenerProbes(t, "C04s")
 	driveSlowDelayFuncProbes(t, "C04p")
 	w := NewCaseWriter(t, "C04", "FS.Corr.C04")
 	w.shardCap = envInt("VERIF_SHARD", 100)
